@@ -80,10 +80,12 @@ theorem skewNW_of_pos (t : T α) (h : pos t = true) : skewNW t = false := by
 theorem splitNW_of_pos (t : T α) (h : pos t = true) : splitNW t = false := by
   rcases t with _ | ⟨l, k, v, r⟩
   · rfl
-  · rcases r with _ | ⟨b, ky, ly, rr⟩
-    · obtain ⟨_, _, hv⟩ := (pos_node l nil k v).mp h
-      simp only [splitNW, beq_eq_false_iff_ne, ne_eq]; omega
-    · rfl
+  · obtain ⟨_, _, hv⟩ := (pos_node l r k v).mp h
+    rcases r with _ | ⟨b, ky, ly, rr⟩
+    · simp only [splitNW, beq_eq_false_iff_ne, ne_eq]; omega
+    · rcases rr with _ | ⟨c, kz, lz, d⟩
+      · simp only [splitNW, beq_eq_false_iff_ne, ne_eq]; omega
+      · rfl
 
 theorem isNil_skew (t : T α) : isNil (skew t) = isNil t := by
   rcases t with _ | ⟨l, k, v, r⟩
